@@ -2,6 +2,7 @@
 // file-descriptor table (packet/UDP sockets, CAN sockets, timerfds, stdin stream, stdout sink),
 // discrete-event clock, transport with fault hooks, seeded scheduler over fiber tasks.
 #pragma once
+#include <linux/filter.h>
 #include <linux/can.h>
 #include <cstdint>
 #include <deque>
@@ -51,6 +52,8 @@ struct FdEnt {
     std::deque<Frame> rxq;
     // can
     bool canfd_enabled = false;
+    std::vector<struct sock_filter> bpf;  // SO_ATTACH_FILTER: classic BPF program run on every datagram before it is queued
+    std::vector<uint8_t> cork;    // UDP: data sent with MSG_MORE waits here for the send that completes the datagram
     size_t rcvbuf_bytes = 0;   // SO_RCVBUF as the kernel keeps it (twice the value asked for, at least 2304); 0 = the system default
     bool pmtudisc_do = false;  // IP_MTU_DISCOVER = IP_PMTUDISC_DO/PROBE: datagrams above the path MTU are refused instead of fragmented
     int bus = -1;
@@ -148,6 +151,7 @@ class World {
     // full fails with ENOBUFS, as on real controllers (txqueuelen 10). 0 = unlimited (virtual CAN).
     size_t can_txq_cap = 0;
     uint64_t can_tx_ns = 120000;
+    bool tty = false;           // standard input/output/error are a terminal (isatty)
     double stdout_fault_p = 0;  // write(1, ...) fails with EAGAIN / EINTR or is cut short with this probability (a pipe whose reader falls behind)
     uint64_t env_seed = 0;   // selects the values
     bool env_on = false;     // every environment variable a program asks for reads "1" (debug switches and the like)
